@@ -591,6 +591,12 @@ theorem Post.df_finishErr {w : World} (ctx : StepCtx) (n : String) (e : Err) (h 
   · exact Post.live_finishErr _ _ h
   · exact Post.hd_finishErr _ _ h.pfx
 
+theorem Post.fs_finishErr {w : World} (ctx : StepCtx) (st : Outbound.Step) (n : String) (e : Err) (h : FlushPre w.view) :
+    Post ((w.failStep ctx st).finishErr n e) := by
+  rcases failStep_cases w ctx st with e1 | e1 <;> rw [e1]
+  · exact Post.live_finishErr _ _ h
+  · exact Post.hd_finishErr _ _ h.pfx
+
 theorem FlushPre.drive {v : View} (h : FlushPre v) : DrivePre v := by
   obtain ⟨part, hl, ho, ha⟩ := h
   exact ⟨part, hl, ho, fun h1 => by rw [ha] at h1; cases h1⟩
@@ -1336,7 +1342,7 @@ theorem wire_performStep (fuel : Nat) (ih : MachineW fuel) :
   have hio : φIO w ≤ fuel := by simp only [φPerf, φIO] at hfuel ⊢; omega
   simp only [performStep]
   split
-  · exact Post.df_finishErr _ _ _ h
+  · exact Post.fs_finishErr _ _ _ _ h
   · rename_i hprep
     exact absurd (prepareStep_done w step hprep) (sf_nextStep_not_sent _ _ hn)
   · rename_i pkt hprep
